@@ -365,15 +365,20 @@ pub fn gen_rawlib(src: &mut Src, o: &RawGenOpts) -> RLib {
             let outline = vec![(0, 0), (w, 0), (w, h), (0, h)];
             let np = src.usize_in(0, 3);
             let mut ports = vec![];
+            let pin_layers: Vec<usize> = (0..layers.len()).filter(|i| layers[*i].purposes.iter().any(|p| p.1 == RPurpose::Pin) && layers[*i].name.is_some()).collect();
             for pi in 0..np {
-                let nl = src.usize_in(1, layers.len().min(3));
-                let mut idx: Vec<usize> = (0..layers.len()).collect();
+                if pin_layers.is_empty() {
+                    break;
+                }
+                let nl = src.usize_in(1, pin_layers.len().min(3));
+                let mut idx: Vec<usize> = pin_layers.clone();
                 src.shuffle(&mut idx);
                 let shapes = idx[..nl].iter().enumerate().map(|(k, l)| (*l, (0..src.usize_in(1, 2)).map(|j| gen_geom(src, pi * 6 + k * 2 + j).0).collect())).collect();
                 ports.push(RPort { net: format!("p{}", pi), shapes });
             }
-            let nb = src.usize_in(0, layers.len().min(3));
-            let mut idx: Vec<usize> = (0..layers.len()).collect();
+            let obs_layers: Vec<usize> = (0..layers.len()).filter(|i| layers[*i].purposes.iter().any(|p| p.1 == RPurpose::Obstruction) && layers[*i].name.is_some()).collect();
+            let nb = src.usize_in(0, obs_layers.len().min(3));
+            let mut idx: Vec<usize> = obs_layers.clone();
             src.shuffle(&mut idx);
             let blockages = idx[..nb].iter().enumerate().map(|(k, l)| (*l, (0..src.usize_in(1, 2)).map(|j| gen_geom(src, 20 + k * 2 + j).0).collect())).collect();
             Some(RAbs { outline, ports, blockages })
